@@ -10,7 +10,7 @@ checks, na = [], []
 for pid in all_ids:
     p = props.get(pid, {})
     units = [u["name"] for u in C.units_for(pid)]
-    if units and p.get("claimed", True) and "level_text" in p:
+    if (units or p.get("bounded_only")) and p.get("claimed", True) and "level_text" in p:
         checks.append({
             "property_id": pid,
             "quick_cmd": f"./check {pid} --tier quick",
@@ -18,7 +18,7 @@ for pid in all_ids:
             "evidence_file": f"/verif/evidence/{pid}.json",
             "replay_cmd_template": f"./check {pid} --replay {{path}}",
             "engine": "verus-contracts",
-            "level_claimed": {"category": "proof", "text": p["level_text"], "design_ref": p.get("design_ref", "DESIGN.md §5")},
+            "level_claimed": {"category": p.get("category", "proof"), "text": p["level_text"], "design_ref": p.get("design_ref", "DESIGN.md §5")},
             "level_note": p.get("level_note", ""),
             "technique": p.get("technique", "contract-based deductive verification (Verus) of mechanically extracted /repo functions"),
         })
